@@ -595,14 +595,37 @@ impl Db {
     }
 }
 
+/// a (table, layout) whose build failed: building is deterministic, do not try (and wait) again
+static FAILED_BUILD: Mutex<Option<(u64, QOut)>> = Mutex::new(None);
+
+fn build_key(table: &Table, layout: &Layout) -> u64 {
+    use std::hash::{Hash, Hasher};
+    let mut h = std::collections::hash_map::DefaultHasher::new();
+    table.sx().to_string().hash(&mut h);
+    layout.sx().to_string().hash(&mut h);
+    h.finish()
+}
+
 /// Build (or rebuild after a panic/hang) and run one query.
 pub fn run_one(table: &Table, layout: &Layout, sql: &str, cache: &mut Option<Db>) -> QOut {
     if cache.as_ref().map_or(true, |d| d.tainted) {
         *cache = None;
+        let key = build_key(table, layout);
+        if let Some((k, out)) = FAILED_BUILD.lock().unwrap().as_ref() {
+            if *k == key {
+                return out.clone();
+            }
+        }
         match build(table, layout) {
             Ok(d) => *cache = Some(d),
-            Err(BuildError::Panic(m)) => return QOut::Panic(vec![format!("build: {}", m)]),
-            Err(BuildError::Hang(m)) => return QOut::Panic(vec![format!("build-hang: {}", m)]),
+            Err(e) => {
+                let out = match e {
+                    BuildError::Panic(m) => QOut::Panic(vec![format!("build: {}", m)]),
+                    BuildError::Hang(m) => QOut::Panic(vec![format!("build-hang: {}", m)]),
+                };
+                *FAILED_BUILD.lock().unwrap() = Some((key, out.clone()));
+                return out;
+            }
         }
     }
     if table.nrows() == 0 {
